@@ -9,7 +9,7 @@ def drop_chunks(lst, min_len=0):
     n = len(lst)
     if n <= min_len:
         return
-    size = n // 2
+    size = max(1, n // 2)
     seen = set()
     while size >= 1:
         for start in range(0, n, size):
